@@ -432,16 +432,28 @@ func (n *cnNet) electionOutput(ctx context.Context, t mkvs.ImmutableKeyValueTree
 	// nodes that are frozen once the election is over: the applications told about the coming election (roothash: liveness of the
 	// ending epoch's committees) freeze nodes BEFORE the candidates are read, so none of them may have been elected
 	frozenAfter := []string{}
+	statusAfter := map[string]any{}
 	rs := registryState.NewImmutableState(t)
 	if nodes, nerr := rs.Nodes(ctx); nerr == nil {
 		for _, nd := range nodes {
-			if st, serr := rs.NodeStatus(ctx, nd.ID); serr == nil && st != nil && st.IsFrozen() {
+			st, serr := rs.NodeStatus(ctx, nd.ID)
+			if serr != nil || st == nil {
+				continue
+			}
+			if st.IsFrozen() {
 				frozenAfter = append(frozenAfter, n.keyName(nd.ID.String()))
 			}
+			susp := []string{}
+			for _, nrt := range nd.Runtimes {
+				if st.IsSuspended(nrt.ID, epochOf(ctx, t)) {
+					susp = append(susp, n.runtimeName(nrt.ID))
+				}
+			}
+			statusAfter[n.keyName(nd.ID.String())] = map[string]any{"frozen": st.IsFrozen(), "susp": susp}
 		}
 	}
 	sort.Strings(frozenAfter)
-	return map[string]any{"frozen_after": frozenAfter, "committees": cl, "validators": vl, "max_validators": int64(params.MaxValidators), "max_per_entity": int64(params.MaxValidatorsPerEntity),
+	return map[string]any{"status_after": statusAfter, "frozen_after": frozenAfter, "committees": cl, "validators": vl, "max_validators": int64(params.MaxValidators), "max_per_entity": int64(params.MaxValidatorsPerEntity),
 		"min_validators": int64(params.MinValidators)}, nil
 }
 
